@@ -12,6 +12,10 @@ package cert
 // The HTTP server's responses are streams (c11Body): they arrive in reads of a
 // scripted size, may pause on the simulated clock, and may end before the
 // announced length with a transport error (states listcut / filecut).
+// A third kind of source is cert.ConsulSource: watchKV and getCerts run on a real
+// hashicorp/consul/api client whose HTTP transport is a simulated Consul KV endpoint
+// (c11KV: indexes, blocking queries with a wait limit, 404 for an empty prefix, 500 /
+// transport errors, a restart after which the index starts again from a low value).
 //
 // One run publishes a history of source states (good certificate sets and
 // unusable material) at driver-chosen instants, lets the watcher poll on the
@@ -29,8 +33,9 @@ package cert
 //     not older than what an earlier, already finished handshake saw;
 //   - certificates are unique per state, so a certificate of a rejected load, a
 //     wrong certificate of the right set or a stale set are all attributable;
-//   - the loader (Walk of the certificate directory / GET of the listing) is
-//     entered at most twice at one simulated instant.
+//   - the loader (Walk of the certificate directory / GET of the listing / KV list
+//     query) is entered at most twice at one simulated instant (a KV query once
+//     more for every publication at that instant: a change wakes a blocked query).
 
 import (
 	"bytes"
@@ -39,6 +44,7 @@ import (
 	"crypto/tls"
 	"crypto/x509"
 	"crypto/x509/pkix"
+	"encoding/json"
 	"encoding/pem"
 	"errors"
 	"fmt"
@@ -48,7 +54,9 @@ import (
 	"net/http"
 	"os"
 	"path/filepath"
+	"reflect"
 	"sort"
+	"strconv"
 	"strings"
 	"sync"
 	"sync/atomic"
@@ -60,6 +68,7 @@ import (
 	"github.com/fabiolb/fabio/internal/zzverif/simcore"
 	"github.com/fabiolb/fabio/internal/zzverif/simhook"
 	"github.com/fabiolb/fabio/internal/zzverif/simnet"
+	"github.com/hashicorp/consul/api"
 )
 
 func init() {
@@ -71,6 +80,9 @@ const (
 	c11ListURL  = "http://certs.sim/list"
 	c11BaseURL  = "http://certs.sim/"
 	c11Addr     = "fabio.sim:443"
+	c11KVHost   = "consul.sim:8500"
+	c11KVPrefix = "certs/fabio"
+	c11KVToken  = "c11-acl-token"
 	c11MaxSteps = 60000
 	c11SpinAt   = 3  // loader entries at one simulated instant that count as spinning
 	c11SpinCap  = 50 // entries at one instant after which the source fails hard so that the run ends
@@ -144,6 +156,9 @@ type c11Xfer struct {
 	CutFile   string `json:"cut_file,omitempty"`   // filecut: cert | key file of the victim
 	CutAt     int    `json:"cut_at,omitempty"`     // filecut: 0 no byte, 1 half, 2 after a complete PEM block, 3 before the last END line
 	CutBlock  int    `json:"cut_block,omitempty"`
+	// consul: a blocked query returns once, after this long, although nothing has changed
+	Spurious string `json:"spurious_return_after,omitempty"`
+	spurious time.Duration
 }
 
 type c11State struct {
@@ -152,7 +167,10 @@ type c11State struct {
 	Variant   int        `json:"variant,omitempty"`
 	Certs     []c11Cert  `json:"certs"`
 	Victim    int        `json:"victim,omitempty"`
-	Gap       int        `json:"gap"` // before publishing: 0 at once, 1 half an interval later, 2 at the next poll instant before the watcher runs
+	Restart   bool       `json:"consul_restart,omitempty"` // consul: the state appears with a restart of the server: pending queries fail, the index starts again from a low value
+	Stray     bool       `json:"stray_key,omitempty"`      // consul, kind empty: a key that is no certificate file stays under the prefix
+	IdxStep   int        `json:"index_step,omitempty"`     // consul: by how much more than 1 the publication raises the index / after a restart: the new index - 1
+	Gap       int        `json:"gap"`                      // before publishing: 0 at once, 1 half an interval later, 2 at the next poll instant before the watcher runs
 	GapRacing []c11Shake `json:"gap_racing,omitempty"`
 	Waves     []c11Wave  `json:"waves"`
 }
@@ -160,7 +178,10 @@ type c11State struct {
 func (s *c11State) good() bool { return s.Kind == "good" }
 
 type c11Scenario struct {
-	Source     string `json:"source"` // path | http
+	Source     string `json:"source"`                       // path | http | consul
+	Token      bool   `json:"acl_token,omitempty"`          // consul: the KV endpoint wants the token that the URL carries
+	QueryTime  string `json:"default_query_time,omitempty"` // consul: how long the server holds a blocking query that names no wait time
+	queryTime  time.Duration
 	Strict     bool   `json:"strict"`
 	Refresh    string `json:"refresh"`
 	refresh    time.Duration
@@ -176,7 +197,32 @@ var c11Hosts = []string{"www", "api", "app"}
 var c11Stems = []string{"aa", "bb", "cc", "dd", "ee", "ff"}
 var c11PathBad = []string{"brokenpem", "torn", "missingkey", "empty", "noroot", "readerr", "walkerr"}
 var c11HTTPBad = []string{"brokenpem", "torn", "missingkey", "empty", "list500", "file500", "list404", "listerr", "fileerr", "listcut", "filecut", "listcut", "filecut"}
+var c11KVBad = []string{"brokenpem", "torn", "missingkey", "empty", "kv500", "kverr", "kvcut"}
 var c11XferErrs = []string{"unexpected-eof", "reset", "timeout"}
+
+// c11GenKVXfer draws how the simulated Consul transfers its answers while one state is published.
+func c11GenKVXfer(g *simcore.Tape, st *c11State, refresh time.Duration) *c11Xfer {
+	xf := &c11Xfer{}
+	xf.Piece = []int{0, 1, 7, 64, 300}[g.Intn(5)]
+	xf.EndData = g.Chance(30)
+	xf.NoLength = g.Chance(25)
+	if g.Chance(25) {
+		// a slow answer: the snapshot is taken, its transfer pauses
+		xf.StallOn = "list"
+		xf.StallAt = g.Intn(3)
+		xf.stall = []time.Duration{refresh / 4, refresh / 2, refresh, 3 * refresh}[g.Intn(4)]
+		xf.Stall = xf.stall.String()
+	}
+	if g.Chance(20) {
+		xf.spurious = []time.Duration{refresh / 4, refresh / 2, 2 * refresh}[g.Intn(3)]
+		xf.Spurious = xf.spurious.String()
+	}
+	if st.Kind == "kvcut" {
+		xf.Err = simcore.Pick(g, c11XferErrs)
+		xf.CutAt = g.Intn(3) // no byte, half, all but the closing bracket
+	}
+	return xf
+}
 
 // c11GenXfer draws the transfer script of one state of an http source.
 func c11GenXfer(g *simcore.Tape, st *c11State, refresh time.Duration) *c11Xfer {
@@ -311,9 +357,17 @@ func c11GenShake(g *simcore.Tape, universe []string) c11Shake {
 
 func c11Gen(g *simcore.Tape, thorough bool) *c11Scenario {
 	sc := &c11Scenario{}
-	sc.Source = []string{"path", "http"}[g.Intn(2)]
+	sc.Source = []string{"path", "http", "consul"}[g.Intn(3)]
 	sc.Strict = g.Bool()
 	sc.refresh = []time.Duration{time.Second, 3 * time.Second, 0}[g.Intn(3)]
+	if sc.Source == "consul" {
+		// the consul source has no refresh interval: it watches the prefix with blocking queries and
+		// waits a second after a failed one; that second is the unit of this run's time line
+		sc.refresh = time.Second
+		sc.Token = g.Bool()
+		sc.queryTime = []time.Duration{4 * time.Second, 10 * time.Second, 5 * time.Minute}[g.Intn(3)]
+		sc.QueryTime = sc.queryTime.String()
+	}
 	sc.Refresh = sc.refresh.String()
 	sc.DeepYields = g.Chance(20)
 	sc.Stick = []int{1, 1, 3, 8}[g.Intn(4)]
@@ -325,6 +379,9 @@ func c11Gen(g *simcore.Tape, thorough bool) *c11Scenario {
 	bad := c11PathBad
 	if sc.Source == "http" {
 		bad = c11HTTPBad
+	}
+	if sc.Source == "consul" {
+		bad = c11KVBad
 	}
 	for i := 0; i < ns; i++ {
 		st := c11State{Kind: "good"}
@@ -354,6 +411,12 @@ func c11Gen(g *simcore.Tape, thorough bool) *c11Scenario {
 		}
 		if sc.Source == "http" {
 			st.Xfer = c11GenXfer(g, &st, sc.reff())
+		}
+		if sc.Source == "consul" {
+			st.Xfer = c11GenKVXfer(g, &st, sc.reff())
+			st.IdxStep = g.Intn(3)
+			st.Restart = i > 0 && g.Chance(20)
+			st.Stray = st.Kind == "empty" && st.Variant%2 == 1
 		}
 		nw := g.Range(1, 2)
 		for w := 0; w < nw; w++ {
@@ -568,6 +631,9 @@ func c11BuildImage(idx int, st *c11State, set []c11Cert, owner map[string]c11Own
 	switch st.Kind {
 	case "empty":
 		im.files = map[string][]byte{}
+		if st.Stray {
+			im.files["README"] = []byte("certificates of the edge listeners; rotated by the deploy job\n")
+		}
 	case "noroot":
 		im.exists, im.files = false, map[string][]byte{}
 	case "list500":
@@ -645,12 +711,83 @@ type c11Op struct {
 
 type c11Tap struct {
 	Source
+	x  *c11Run
 	ch chan []tls.Certificate
 }
 
 func (t *c11Tap) Certificates() chan []tls.Certificate {
+	if cs, ok := t.Source.(ConsulSource); ok {
+		t.ch = t.x.consulCertificates(cs)
+		return t.ch
+	}
 	t.ch = t.Source.Certificates()
 	return t.ch
+}
+
+// consulCertificates does what ConsulSource.Certificates does - parse the URL, build the
+// api client, start watchKV and the goroutine that turns each delivered KV snapshot into
+// certificates - with the one difference that the api client is given an http.Client whose
+// transport is the simulated KV endpoint: ConsulSource.Certificates offers no seam for
+// that (api.NewClient builds a private transport with a real dialer). parseConsulURL,
+// watchKV, getCerts and loadCertificates are fabio's; the two goroutines are tasks.
+func (x *c11Run) consulCertificates(s ConsulSource) chan []tls.Certificate {
+	ch := make(chan []tls.Certificate, 1)
+	config, key, err := parseConsulURL(s.CertURL)
+	if err != nil {
+		x.r.Trouble("parseConsulURL(%q): %v", s.CertURL, err)
+		return ch
+	}
+	config.HttpClient = &http.Client{Transport: c11KV{x}}
+	client, err := api.NewClient(config)
+	if err != nil {
+		x.r.Trouble("api.NewClient: %v", err)
+		return ch
+	}
+	pemBlocksCh := make(chan map[string][]byte, 1)
+	x.kvBlocks = pemBlocksCh
+	x.kvWatch = x.d.Sim.Spawn("kvwatch", func() { watchKV(client, key, pemBlocksCh) })
+	x.kvConv = x.d.Sim.Spawn("kvconv", func() {
+		for pemBlocks := range pemBlocksCh {
+			certs, err := x.loadCertificates(pemBlocks)
+			if err != nil {
+				continue
+			}
+			ch <- certs
+		}
+	})
+	return ch
+}
+
+// loadCertificates calls cert.loadCertificates the way ConsulSource.Certificates does. The call goes
+// through reflection so that a tree in which the function has got further parameters (they get zero
+// values, as a caller with nothing to pass on would give) still builds: this copy of the method body
+// must not turn a change elsewhere in the package into a build failure of the harness.
+func (x *c11Run) loadCertificates(pemBlocks map[string][]byte) ([]tls.Certificate, error) {
+	f := reflect.ValueOf(loadCertificates)
+	ft := f.Type()
+	args := make([]reflect.Value, ft.NumIn())
+	given := false
+	for i := range args {
+		if ft.In(i) == reflect.TypeOf(pemBlocks) && !given {
+			args[i], given = reflect.ValueOf(pemBlocks), true
+		} else {
+			args[i] = reflect.Zero(ft.In(i))
+		}
+	}
+	if !given || ft.IsVariadic() || ft.NumOut() != 2 {
+		x.r.Trouble("cert.loadCertificates has the unexpected type %s", ft)
+		return nil, errors.New("c11: cannot call loadCertificates")
+	}
+	out := f.Call(args)
+	certs, ok := out[0].Interface().([]tls.Certificate)
+	if !ok {
+		x.r.Trouble("cert.loadCertificates has the unexpected type %s", ft)
+		return nil, errors.New("c11: cannot call loadCertificates")
+	}
+	if err, _ := out[1].Interface().(error); err != nil {
+		return certs, err
+	}
+	return certs, nil
 }
 
 type c11Run struct {
@@ -691,6 +828,41 @@ type c11Run struct {
 	paused      map[*c11Body]time.Time // response bodies that stand in a pause right now, and when each goes on
 	pauses      atomic.Int32           // statistics: pauses begun, transport errors handed to a reader
 	cuts        atomic.Int32
+
+	// consul source: the simulated KV endpoint
+	kmu           sync.Mutex
+	kvIndex       uint64        // X-Consul-Index of the watched prefix
+	kvHigh        uint64        // highest index of any earlier publication
+	kvNeedWait    bool          // the current state appeared with an index that is not above every earlier one
+	kvChanged     chan struct{} // closed (and replaced) by every publication
+	kvEpoch       int           // restarts so far
+	kvSpurUsed    map[int]bool
+	kvWatch       *simhook.Task
+	kvConv        *simhook.Task
+	kvBlocks      chan map[string][]byte
+	pubInstant    time.Time
+	pubsAtInstant int
+	kvWoken       atomic.Int32 // statistics
+	kvTimeouts    atomic.Int32
+	kvSpurious    atomic.Int32
+	kvBroken      atomic.Int32
+	kvLate        atomic.Int32
+}
+
+func (x *c11Run) consul() bool { return x.sc.Source == "consul" }
+
+// need is how long a state must have been offered before it counts as in effect.
+func (x *c11Run) need() time.Duration {
+	d := x.reff() + x.slack()
+	if x.consul() && x.kvNeedWait {
+		// a watcher that still asks for changes after an index of the time before the restart is
+		// answered when the server's wait limit for blocking queries is reached. Its query arrives at
+		// most five seconds after the publication: the broken query wakes it, it pauses a second and
+		// asks again, and after each of the two wake-ups it may stand for one clock advance of this
+		// driver (two seconds at most) before it goes on
+		d += x.sc.queryTime + 4*x.reff()
+	}
+	return d
 }
 
 // slack is the longest time for which a load that was already under way when the
@@ -1023,14 +1195,213 @@ func (x *c11Run) httpGet(url string) (*http.Response, error) {
 	return x.response(im, name, 200, b), nil
 }
 
+// ---- the simulated Consul KV endpoint (consul source)
+
+// enterKV counts one KV list query as a loader entry. A publication wakes a blocked
+// query, so every publication at one instant legitimately allows one more entry.
+func (x *c11Run) enterKV() error {
+	now := time.Now()
+	if now.Equal(x.lastEntry) {
+		x.sameInstant++
+	} else {
+		x.lastEntry, x.sameInstant = now, 1
+	}
+	x.entries++
+	n := x.sameInstant
+	if now.Equal(x.pubInstant) {
+		n -= x.pubsAtInstant
+	}
+	x.kmu.Lock()
+	im := x.images[x.cur]
+	x.kmu.Unlock()
+	x.r.Tracef("load kv state=%d kind=%s nth-at-instant=%d", im.state, im.kind, x.sameInstant)
+	if n >= c11SpinAt && !x.spun {
+		x.spun = true
+		x.r.Fail("spin", im.kind, "the KV prefix was queried %d times at the simulated instant %s while the source held state %d (%s): the watcher queries again without waiting",
+			x.sameInstant, now.Format("15:04:05.000"), im.state, im.kind)
+	}
+	if x.sameInstant >= c11SpinCap {
+		return errC11Spin
+	}
+	return nil
+}
+
+type c11KV struct{ x *c11Run }
+
+func (k c11KV) RoundTrip(req *http.Request) (*http.Response, error) {
+	x := k.x
+	if req.Body != nil {
+		req.Body.Close()
+	}
+	if x.over.Load() || req.URL.Host != c11KVHost {
+		return nil, &net.OpError{Op: "dial", Net: "tcp", Err: syscall.ECONNREFUSED}
+	}
+	q := req.URL.Query()
+	_, recurse := q["recurse"]
+	if req.Method != http.MethodGet || req.URL.Path != "/v1/kv/"+c11KVPrefix || !recurse {
+		// not a listing of the prefix under which the certificates are stored: nothing is there
+		x.kmu.Lock()
+		idx := x.kvIndex
+		x.kmu.Unlock()
+		return x.kvResponse(req, nil, 404, idx, nil), nil
+	}
+	if err := x.enterKV(); err != nil {
+		return nil, err
+	}
+	var after uint64
+	if v := q.Get("index"); v != "" {
+		after, _ = strconv.ParseUint(v, 10, 64)
+	}
+	wait := x.sc.queryTime
+	if v := q.Get("wait"); v != "" {
+		if d, err := time.ParseDuration(v); err == nil && d > 0 {
+			wait = d
+		}
+	}
+	x.kmu.Lock()
+	epoch := x.kvEpoch
+	x.kmu.Unlock()
+	var limit, spur *time.Timer
+	var spurC <-chan time.Time
+	defer func() {
+		if limit != nil {
+			limit.Stop()
+		}
+		if spur != nil {
+			spur.Stop()
+		}
+	}()
+	early := false
+	for {
+		x.kmu.Lock()
+		idx, changed, ep, im := x.kvIndex, x.kvChanged, x.kvEpoch, x.images[x.cur]
+		x.kmu.Unlock()
+		if ep != epoch {
+			// the server went away under the pending query
+			x.kvBroken.Add(1)
+			return nil, io.ErrUnexpectedEOF
+		}
+		if after == 0 || idx > after || early || im.kind == "kv500" || im.kind == "kverr" {
+			return x.kvAnswer(req, im, idx)
+		}
+		if limit == nil {
+			limit = time.NewTimer(wait)
+			x.kmu.Lock()
+			if im.xfer.spurious > 0 && !x.kvSpurUsed[im.state] {
+				x.kvSpurUsed[im.state] = true
+				spur = time.NewTimer(im.xfer.spurious)
+				spurC = spur.C
+			}
+			x.kmu.Unlock()
+		}
+		select {
+		case <-changed:
+			x.kvWoken.Add(1)
+		case <-limit.C:
+			x.kvTimeouts.Add(1)
+			if idx < after {
+				x.kvLate.Add(1)
+			}
+			early = true
+		case <-spurC:
+			x.kvSpurious.Add(1)
+			early = true
+		case <-x.stop:
+			return nil, errC11Over
+		}
+	}
+}
+
+// kvAnswer answers a KV list query from image im (the state published right now).
+func (x *c11Run) kvAnswer(req *http.Request, im *c11Image, idx uint64) (*http.Response, error) {
+	if im.kind != "good" && !x.faulted[im.state] {
+		x.faulted[im.state] = true
+		x.r.Fault("source_" + im.kind)
+	}
+	x.r.Tracef("kv answer state=%d kind=%s index=%d", im.state, im.kind, idx)
+	switch {
+	case im.kind == "kverr":
+		return nil, &net.OpError{Op: "read", Net: "tcp", Err: syscall.ECONNRESET}
+	case im.kind == "kv500":
+		return x.kvResponse(req, im, 500, idx, []byte("rpc error making call: No cluster leader")), nil
+	case x.sc.Token && req.Header.Get("X-Consul-Token") != c11KVToken:
+		return x.kvResponse(req, im, 403, idx, []byte("Permission denied: ACL not found")), nil
+	case len(im.order) == 0:
+		return x.kvResponse(req, im, 404, idx, nil), nil
+	}
+	pairs := make([]*api.KVPair, 0, len(im.order))
+	for _, name := range im.order {
+		pairs = append(pairs, &api.KVPair{Key: c11KVPrefix + "/" + name, Value: im.files[name], CreateIndex: idx, ModifyIndex: idx})
+	}
+	body, err := json.Marshal(pairs)
+	if err != nil {
+		x.r.Trouble("kv json: %v", err)
+	}
+	if im.kind == "kvcut" {
+		// the answer ends early: at least the closing bracket is lost
+		im.cut[""] = []int{0, len(body) / 2, len(body) - 1}[im.xfer.CutAt%3]
+	}
+	return x.kvResponse(req, im, 200, idx, body), nil
+}
+
+func (x *c11Run) kvResponse(req *http.Request, im *c11Image, status int, idx uint64, body []byte) *http.Response {
+	what := "-"
+	if status == 200 {
+		what = ""
+	}
+	resp := x.response(im, what, status, body)
+	resp.Request = req
+	resp.Header.Set("Content-Type", "application/json")
+	resp.Header.Set("X-Consul-Index", strconv.FormatUint(idx, 10))
+	resp.Header.Set("X-Consul-Knownleader", "true")
+	resp.Header.Set("X-Consul-Lastcontact", "0")
+	return resp
+}
+
+// publishKV makes state i the content of the watched prefix: one transaction, one new index.
+func (x *c11Run) publishKV(i int) {
+	st := &x.sc.States[i]
+	now := time.Now()
+	if now.Equal(x.pubInstant) {
+		x.pubsAtInstant++
+	} else {
+		x.pubInstant, x.pubsAtInstant = now, 1
+	}
+	x.kmu.Lock()
+	x.cur = i
+	if st.Restart {
+		x.kvEpoch++
+		x.kvIndex = 1 + uint64(st.IdxStep)
+	} else {
+		x.kvIndex += 1 + uint64(st.IdxStep)
+	}
+	x.kvNeedWait = x.kvIndex <= x.kvHigh
+	if x.kvIndex > x.kvHigh {
+		x.kvHigh = x.kvIndex
+	}
+	idx := x.kvIndex
+	close(x.kvChanged)
+	x.kvChanged = make(chan struct{})
+	x.kmu.Unlock()
+	x.r.Tracef("kv index=%d restart=%v", idx, st.Restart)
+	if st.Restart {
+		x.r.Fault("consul_restart_index_backwards")
+	}
+	synctest.Wait() // a query that this wakes has been answered and its reader stands at a statement again
+}
+
 // ---- driving
 
 func (x *c11Run) publish(i int) {
-	x.cur = i
 	x.pubAt = time.Now()
 	st := &x.sc.States[i]
 	x.r.Tracef("publish state=%d kind=%s certs=%d", i, st.Kind, len(st.Certs))
 	x.r.Probe("state_" + st.Kind)
+	if x.consul() {
+		x.publishKV(i)
+		return
+	}
+	x.cur = i
 	if im := x.images[i]; len(im.cut) > 0 {
 		for what, n := range im.cut { // one entry
 			body := im.listing()
@@ -1094,7 +1465,7 @@ func (x *c11Run) advance(dt time.Duration) {
 // settle notes that the published state is now guaranteed to be installed: it has
 // been offered for a full refresh interval and the system is idle again.
 func (x *c11Run) settle() {
-	if x.spun || time.Since(x.pubAt) < x.reff()+x.slack() || x.transferring() {
+	if x.spun || time.Since(x.pubAt) < x.need() || x.transferring() {
 		return // not offered for long enough, or not idle: a transfer is still under way
 	}
 	if !x.sc.States[x.cur].good() {
@@ -1441,7 +1812,8 @@ func (x *c11Run) violation(op *c11Op, lo, guaranteed, hi int) {
 func runC11(r *simcore.Run) {
 	sc := c11Gen(r.Gen, r.Thorough())
 	r.SetSample(sc)
-	x := &c11Run{r: r, sc: sc, owner: map[string]c11Owner{}, cur: 0, L: -1, floor: -1, faulted: map[int]bool{}, stop: make(chan struct{}), paused: map[*c11Body]time.Time{}}
+	x := &c11Run{r: r, sc: sc, owner: map[string]c11Owner{}, cur: 0, L: -1, floor: -1, faulted: map[int]bool{}, stop: make(chan struct{}), paused: map[*c11Body]time.Time{},
+		kvIndex: 10, kvHigh: 10, kvChanged: make(chan struct{}), kvSpurUsed: map[int]bool{}}
 	for i := range sc.States {
 		st := &sc.States[i]
 		set := append([]c11Cert(nil), st.Certs...)
@@ -1460,6 +1832,7 @@ func runC11(r *simcore.Run) {
 	}
 	d.Sim.FS = x
 	d.Sim.HTTPGet = x.httpGet
+	d.Sim.StopBudget = 400 // the watchers are endless loops: they end a few passes after the run
 	overlap := false
 	d.Invariant = func() {
 		if overlap || d.Sim.InFunc("cert", "getCertificate") == 0 {
@@ -1486,24 +1859,40 @@ func runC11(r *simcore.Run) {
 	var bootErr error
 	boot := d.Sim.Spawn("boot", func() {
 		cs := config.CertSource{Name: "sim", Refresh: sc.refresh}
-		if sc.Source == "path" {
+		switch sc.Source {
+		case "path":
 			cs.Type, cs.CertPath = "path", c11Root
-		} else {
+		case "http":
 			cs.Type, cs.CertPath = "http", c11ListURL
+		case "consul":
+			cs.Type, cs.CertPath = "consul", "http://"+c11KVHost+"/v1/kv/"+c11KVPrefix
+			if sc.Token {
+				cs.CertPath += "?token=" + c11KVToken
+			}
 		}
 		src, err := NewSource(cs)
 		if err != nil {
 			bootErr = err
 			return
 		}
-		x.tap = &c11Tap{Source: src}
+		x.tap = &c11Tap{Source: src, x: x}
 		x.cfg, bootErr = TLSConfig(x.tap, sc.Strict, 0, 0, nil)
 	})
-	for {
+	for waited := 0; ; {
 		synctest.Wait() // the task released last has parked or ended: only now is Done() a fact of the schedule
-		if boot.Done() || !x.step() {
+		if boot.Done() {
 			break
 		}
+		if x.step() {
+			continue
+		}
+		if waited >= 50 || x.spun || x.steps >= c11MaxSteps {
+			break
+		}
+		// nothing can run and the constructor has not returned: it waits for something on the clock
+		// (a first set with a time limit, say); time passes in small steps until it goes on
+		waited++
+		x.advance(100 * time.Millisecond)
 	}
 	synctest.Wait()
 	if bootErr != nil || x.cfg == nil {
@@ -1554,7 +1943,7 @@ func runC11(r *simcore.Run) {
 	}
 	// the last state stays for a full interval, then two more idle polls
 	if !x.spun {
-		for k := 0; k < 12 && (time.Since(x.pubAt) < R+x.slack() || x.transferring()); k++ {
+		for k := 0; k < 12+int(x.need()/R) && (time.Since(x.pubAt) < x.need() || x.transferring()); k++ {
 			x.advance(R)
 			x.quiesce()
 		}
@@ -1575,6 +1964,11 @@ func runC11(r *simcore.Run) {
 	synctest.Wait()
 	r.ProbeN("transfer_pauses", int(x.pauses.Load()))
 	r.ProbeN("transfer_errors_delivered", int(x.cuts.Load()))
+	r.ProbeN("kv_blocked_query_woken_by_change", int(x.kvWoken.Load()))
+	r.ProbeN("kv_blocked_query_reached_wait_limit", int(x.kvTimeouts.Load()))
+	r.ProbeN("kv_wait_limit_with_index_below_asked", int(x.kvLate.Load()))
+	r.ProbeN("kv_spurious_return", int(x.kvSpurious.Load()))
+	r.ProbeN("kv_query_broken_by_restart", int(x.kvBroken.Load()))
 }
 
 func (x *c11Run) teardown() {
@@ -1591,6 +1985,33 @@ func (x *c11Run) teardown() {
 	x.net.Shutdown()
 	x.d.Sim.Stop()
 	synctest.Wait()
+	// The consumers of the channels (the update goroutine of TLSConfig; for consul also the goroutine that
+	// converts the KV snapshots) end when their channel is closed. Everything else ends by itself, a watcher
+	// at a statement after its next pause(s) - and only when it has gone may the harness close a channel the
+	// watcher sends on (or closes itself when it is through).
+	for k := 0; k < 300; k++ {
+		others := 0
+		for _, ts := range x.d.Sim.TaskStates() {
+			if !strings.Contains(ts, " TLSConfig") && !strings.HasPrefix(ts, "kvconv ") {
+				others++
+			}
+		}
+		if others == 0 {
+			break
+		}
+		time.Sleep(time.Second)
+		synctest.Wait()
+	}
+	if x.kvWatch != nil && x.kvWatch.Done() {
+		close(x.kvBlocks)
+		for k := 0; k < 4 && !x.kvConv.Done(); k++ {
+			select {
+			case <-x.tap.ch:
+			default:
+			}
+			synctest.Wait()
+		}
+	}
 	if x.tap != nil && x.tap.ch != nil {
 		// the update goroutine ranges over this channel: end it (after a sender blocked on a full buffer has gone)
 		for k := 0; k < 2; k++ {
